@@ -531,7 +531,10 @@ def planted(rng, m, n, gspec, cplx, cond=3.0, structured=None):
 
     def rnd(*sh):
         return nr.randn(*sh) + 1j * nr.randn(*sh) if cplx else nr.randn(*sh)
-    if structured == "nesterov":
+    if structured == "identity":
+        m = n
+        A = np.eye(n, dtype=complex if cplx else float)
+    elif structured == "nesterov":
         A = np.zeros((n + 1, n))
         for i in range(n):
             A[i, i] = 1
@@ -570,7 +573,7 @@ def planted(rng, m, n, gspec, cplx, cond=3.0, structured=None):
     if np.linalg.norm(AH @ us + s) > 1e-12 * (1 + np.linalg.norm(s)):
         return None
     b = A @ xs - us
-    return dict(A=A, b=b, xs=xs.astype(A.dtype), us=us, gspec=gspec)
+    return dict(A=A, b=b, xs=xs.astype(A.dtype), us=us, gspec=gspec, structured=structured)
 
 
 def warm_up():
@@ -601,7 +604,7 @@ def case_of(P, extra):
              b_re=P["b"].real.tolist(), b_im=P["b"].imag.tolist() if np.iscomplexobj(P["b"]) else None,
              xs_re=P["xs"].real.tolist(), xs_im=P["xs"].imag.tolist() if np.iscomplexobj(P["xs"]) else None,
              us_re=P["us"].real.tolist(), us_im=P["us"].imag.tolist() if np.iscomplexobj(P["us"]) else None,
-             gspec=P["gspec"])
+             gspec=P["gspec"], structured=P.get("structured"), identity_kind=P.get("identity_kind"))
     d.update(extra)
     return d
 
@@ -623,7 +626,8 @@ def P_of(d):
         re = np.array(re, dtype=float)
         return re + 1j * np.array(im, dtype=float) if im is not None else re
     return dict(A=cv(d["A_re"], d["A_im"]), b=cv(d["b_re"], d["b_im"]), xs=cv(d["xs_re"], d["xs_im"]),
-                us=cv(d["us_re"], d["us_im"]), gspec=d["gspec"])
+                us=cv(d["us_re"], d["us_im"]), gspec=d["gspec"], structured=d.get("structured"),
+                identity_kind=d.get("identity_kind") or "lambda")
 
 
 def oracle_gm(ctx, P, x0, c_alpha, accel, K, origin, w_extra=None):
@@ -690,8 +694,17 @@ def oracle_pd(ctx, P, x0, u0, tau, sigma, gp, gd, K, what, origin):
     xc, uc = x, u
     tau0 = np.array(tau, dtype=float).copy() if isinstance(tau, np.ndarray) else float(tau)
     sig0 = np.array(sigma, dtype=float).copy() if isinstance(sigma, np.ndarray) else float(sigma)
-    a = alg.PrimalDualHybridGradient(prox.L2Reg((m,), 1.0, y=-b), real_prox(P["gspec"], n), lambda v: A @ v,
-                                     lambda w: AH @ w, x, u, tau.copy() if isinstance(tau, np.ndarray) else tau,
+    Aop, AHop = (lambda v: A @ v), (lambda w: AH @ w)
+    if P.get("structured") == "identity":
+        # operators that return their ARGUMENT (sigpy.linop.Identity, lambda v: v): legal, and the only way to
+        # see whether the update scales or accumulates into the operator's output in place
+        import sigpy as sp
+        if P.get("identity_kind", "lambda") == "linop":
+            Aop = AHop = sp.linop.Identity([n])
+        else:
+            Aop = AHop = (lambda v: v)
+    a = alg.PrimalDualHybridGradient(prox.L2Reg((m,), 1.0, y=-b), real_prox(P["gspec"], n), Aop,
+                                     AHop, x, u, tau.copy() if isinstance(tau, np.ndarray) else tau,
                                      sigma.copy() if isinstance(sigma, np.ndarray) else sigma,
                                      gamma_primal=gp, gamma_dual=gd, max_iter=K)
     case = case_of(P, dict(oracle="pd", what=what, x0_re=x0.real.tolist(), x0_im=x0.imag.tolist() if np.iscomplexobj(x0) else None,
@@ -797,9 +810,13 @@ def search_once(ctx, rng, origin, heavy):
                     + ([] if cplx else [["box", "-1/2", "3/4"]]))
     n = rng.randint(1, 5)
     m = n + rng.randint(0, 3)
-    P = planted(rng, m, n, gk, cplx, cond=rng.choice((1.5, 3.0)))
+    ident = rng.random() < 0.3
+    P = planted(rng, m, n, gk, cplx, cond=rng.choice((1.5, 3.0)), structured="identity" if ident else None)
     if P is None:
         return
+    if ident:
+        m = n
+        P["identity_kind"] = rng.choice(["lambda", "linop"])
     P["conv_tol"] = 1e-6
     arr = rng.random() < 0.5
     tau, sigma = pd_steps(rng, P, arr)
